@@ -49,7 +49,7 @@ struct Input {
     topic: Topic,
 }
 
-type Entry = (String, u8, u32); // author tag, topic tag, seq
+type Entry = (String, u8, u32, String); // author tag, topic tag, seq, first 8 hex digits of the operation id
 
 async fn snapshot(store: &SqliteStore, authors: &[(String, VerifyingKey)], topics: &[(u8, Topic)]) -> BTreeSet<Entry> {
     let mut s = BTreeSet::new();
@@ -59,7 +59,7 @@ async fn snapshot(store: &SqliteStore, authors: &[(String, VerifyingKey)], topic
                 .await
                 .expect("read log");
             for (op, _) in r.unwrap_or_default() {
-                s.insert((an.clone(), *tn, op.header.seq_num));
+                s.insert((an.clone(), *tn, op.header.seq_num, op.hash.to_hex()[..8].to_string()));
             }
         }
     }
@@ -144,16 +144,32 @@ struct StepObs {
     topic_tag: u8,
     own_log_tag: u8,
     seq: u32,
+    id8: String,
     prune: bool,
 }
 
 /// Feed one operation the way a sync session / import / replay feeds it: through the stream's
 /// `process_operation` (system-level processing in the real Pipeline, ack, decoding).
-async fn feed(pipeline: &Pipeline<LogId, Extensions, Topic>, store: &SqliteStore, i: &Input) -> Result<bool, String> {
+async fn feed(pipeline: &Pipeline<LogId, Extensions, Topic>, store: &SqliteStore, i: &Input, source_kind: usize) -> Result<bool, String> {
+    let source = match source_kind {
+        0 => Source::ExternalStream { session_id: 1 },
+        1 => Source::SyncSession {
+            remote_node_id: key(5).verifying_key(),
+            session_id: 2,
+            sent_operations: 0,
+            received_operations: 1,
+            sent_bytes: 0,
+            received_bytes: 1,
+            sent_bytes_topic_total: 0,
+            received_bytes_topic_total: 1,
+            phase: p2panda::streams::SessionPhase::Sync,
+        },
+        _ => Source::LocalStore,
+    };
     let acked = Acked::new(store.clone(), i.topic);
     let r = tokio::time::timeout(
         std::time::Duration::from_secs(30),
-        process_operation::<Vec<u8>>(i.op.clone(), i.topic, pipeline, AckPolicy::Explicit, &acked, Source::ExternalStream { session_id: 1 }),
+        process_operation::<Vec<u8>>(i.op.clone(), i.topic, pipeline, AckPolicy::Explicit, &acked, source),
     )
     .await
     .map_err(|_| format!("pipeline did not answer for input {}", i.name))?;
@@ -165,7 +181,7 @@ fn execute(ch: &Chooser, w: &World, depth: usize, rt: &tokio::runtime::Runtime) 
         let store = SqliteStore::temporary().await;
         let pipeline = Pipeline::<LogId, Extensions, Topic>::new(store.clone(), TaskTracker::new());
         for i in &w.setup {
-            if feed(&pipeline, &store, i).await? {
+            if feed(&pipeline, &store, i, 0).await? {
                 return Err(format!("setup operation {} failed", i.name));
             }
         }
@@ -174,13 +190,15 @@ fn execute(ch: &Chooser, w: &World, depth: usize, rt: &tokio::runtime::Runtime) 
         for _ in 0..len {
             let i = &w.menu[ch.choose_free(w.menu.len(), "input")];
             let before = snapshot(&store, &w.authors, &w.topics).await;
-            let failed = feed(&pipeline, &store, i).await?;
+            // entry point the operation arrives through: import, sync session, replay from the local store
+            let source_kind = ch.choose_free(3, "source");
+            let failed = feed(&pipeline, &store, i, source_kind).await?;
             let after = snapshot(&store, &w.authors, &w.topics).await;
             let author = w.authors.iter().find(|(_, k)| *k == i.op.header.verifying_key).map(|(n, _)| n.clone()).unwrap_or("?".into());
             let topic_tag = w.topics.iter().find(|(_, t)| *t == i.topic).map(|(n, _)| *n).unwrap();
             // the log the operation itself claims to belong to (header extension)
             let own_log_tag = w.topics.iter().find(|(_, t)| LogId::from_topic(*t) == i.op.header.extensions.log_id()).map(|(n, _)| *n).unwrap_or(0);
-            out.push(StepObs { own_log_tag, input: i.name.clone(), failed, before, after, author, topic_tag, seq: i.op.header.seq_num, prune: *i.op.header.extensions.prune_flag() });
+            out.push(StepObs { own_log_tag, input: format!("{}@{}", i.name, ["import", "sync", "replay"][source_kind]), failed, before, after, author, topic_tag, seq: i.op.header.seq_num, id8: i.op.hash.to_hex()[..8].to_string(), prune: *i.op.header.extensions.prune_flag() });
         }
         Ok(out)
     })
@@ -227,7 +245,7 @@ pub fn run(mut rep: Report) -> i32 {
                 continue;
             }
             // accepted (new or duplicate)
-            let me: Entry = (s.author.clone(), s.topic_tag, s.seq);
+            let me: Entry = (s.author.clone(), s.topic_tag, s.seq, s.id8.clone());
             let allowed_removed: BTreeSet<Entry> = if s.prune { s.before.iter().filter(|e| e.0 == s.author && e.1 == s.own_log_tag && e.2 < s.seq).cloned().collect() } else { BTreeSet::new() };
             if s.prune {
                 saw_prune = true;
